@@ -727,8 +727,13 @@ func dbExec(ops []string) (dops []string, res []string) {
 			}
 		case "close":
 			// every transaction handle is finished first (a Close racing open transactions belongs to C15)
+			keep := -1
+			if len(t) > 2 && t[1] == "keep" {
+				// "close keep i": transaction i stays open across the Close (it is committed afterwards: "closedcalls i")
+				keep, _ = strconv.Atoi(t[2])
+			}
 			for k, tx := range txns {
-				if !finished[k] {
+				if !finished[k] && k != keep {
 					r.mu.Lock()
 					r.log(fmt.Sprintf("discard %d", k), "ok")
 					r.mu.Unlock()
@@ -747,6 +752,25 @@ func dbExec(ops []string) (dops []string, res []string) {
 			r.log("close", "ok")
 			r.mu.Unlock()
 		case "closedcalls":
+			if len(t) > 1 {
+				// "closedcalls i": a read-write transaction begun before Close commits after it — refused with ErrDBClosed — and
+				// then Begin is called on the closed handle: it must return (a refused commit must not leave a commit
+				// timestamp reserved that every later Begin waits for)
+				i, _ := strconv.Atoi(t[1])
+				if i < len(txns) && !finished[i] && txns[i].Set("zz-closed", []byte("x")) == nil {
+					var err error
+					r.call(func() { err = txns[i].Commit() })
+					finished[i] = true
+					var tb *originium.Txn
+					r.call(func() { tb = r.db.Begin(false) })
+					r.call(func() { tb.Discard() })
+					r.mu.Lock()
+					r.log("closedcall", errName(err))
+					r.log("expectok Begin-returns-after-a-commit-refused-with-ErrDBClosed", "ok")
+					r.mu.Unlock()
+				}
+				continue
+			}
 			// misuse after Close: View / Update answer ErrDBClosed and do nothing
 			e1 := r.db.View(func(*originium.Txn) error { return nil })
 			e2 := r.db.Update(func(tx *originium.Txn) error { return tx.Set("zz", []byte("x")) })
@@ -1003,9 +1027,24 @@ func dbGen(r *rand.Rand, n int, length int, withReopen bool) []Case {
 			case x < 93:
 				ops = append(ops, "drain")
 			case x < 95 && withReopen:
-				ops = append(ops, "close")
+				keep := -1
+				for _, t := range ot {
+					if t.update && r.Intn(2) == 0 {
+						keep = t.idx
+						break
+					}
+				}
+				if keep >= 0 {
+					ops = append(ops, fmt.Sprintf("close keep %d", keep))
+				} else {
+					ops = append(ops, "close")
+				}
 				if r.Intn(2) == 0 {
 					ops = append(ops, "closedcalls")
+				}
+				if keep >= 0 {
+					ops = append(ops, fmt.Sprintf("closedcalls %d", keep))
+					tags["commit-and-begin-after-close"] = true
 				}
 				ops = append(ops, "reopen "+cfg())
 				txs = nil // handles of the previous Open are not used any more
